@@ -1,0 +1,25 @@
+//go:build verif
+
+// Contracts for the watermill verification harness (/verif, tool "gowp"). Comment-only.
+// Generic bodies are verified once, parametrically: values of the type parameter are opaque.
+
+package requestreply
+
+// ---- reply marshaler (C16, C18) ----
+
+//@ func (BackendPubsubJSONMarshaler[Result]).MarshalReply
+//@   nopanic
+//@   ensures result1 != nil ==> result0 == nil
+//@   ensures result1 == nil ==> result0 != nil && fresh(result0) [fresh-message]
+//@   ensures result1 == nil ==> bytes(result0.Payload) == jsonenc(boxed(params.HandlerResult)) [payload-is-the-encoding-of-the-handler-result]
+//@   ensures result1 == nil && params.HandleErr != nil ==> result0.Metadata[HasErrorMetadataKey] == "1" && result0.Metadata[ErrorMetadataKey] == errtext(params.HandleErr) [error-text-carried]
+//@   ensures result1 == nil && params.HandleErr == nil ==> result0.Metadata[HasErrorMetadataKey] == "0" && !has(result0.Metadata, ErrorMetadataKey) [no-error-marked]
+//@   ensures result1 == nil ==> (forall k string :: k != HasErrorMetadataKey && k != ErrorMetadataKey ==> !has(result0.Metadata, k)) [nothing-else-in-the-metadata]
+
+//@ func (BackendPubsubJSONMarshaler[Result]).UnmarshalReply
+//@   requires msg != nil
+//@   nopanic
+//@   ensures result1 == nil ==> result0.HandlerResult == jsondecval(bytes(msg.Payload), result0.HandlerResult) [result-decoded-from-exactly-the-payload]
+//@   ensures result1 == nil && msg.Metadata[HasErrorMetadataKey] == "1" ==> result0.Error != nil && errtext(result0.Error) == msg.Metadata[ErrorMetadataKey] [error-text-restored]
+//@   ensures result1 == nil && msg.Metadata[HasErrorMetadataKey] != "1" ==> result0.Error == nil [no-error-restored]
+//@   ensures result1 != nil ==> result0.Error == nil && result0.NotificationMessage == nil [failure-yields-the-zero-reply]
